@@ -290,7 +290,7 @@ func main() {
 		k := k
 		jobs = append(jobs, vlib.E1Job{Name: "c11-stream/" + k.String(), Bound: k.Bound, Run: func(devs []vrt.Dev) *explore.Exec { return runOne(k, devs, false) }})
 	}
-	c.E1Batch(jobs, time.Until(c.Deadline(75*time.Second, 25*time.Minute)))
+	c.E1Batch(jobs, time.Until(c.DeadlineIn(75*time.Second, 25*time.Minute)))
 	fix.RemoveTemplates()
 	c.Assume("scheduling points are channel, select, mutex, spawn and close operations of the instrumented packages (internal/chain/beacon, internal/chain/memdb); bbolt is an atomic library call",
 		"stream.Send is instantaneous and never fails in these configurations (slow/failing consumers are C12)",
